@@ -330,17 +330,18 @@ RETS = [-2, -1, 0, 1, 5]
 def inj_cases(rng, full):
     out = []
     triples = [(r, e, q) for r in RETS for e in ERRS for q in (0, 1)]
-    for fn in ("read", "write", "close", "handshake"):
+    for fn in ("read", "write", "close", "handshake", "hswrite", "hsread"):
         for role in "cs":
             for flags in range(16):
                 hc, ab, ef, vn = flags & 1, (flags >> 1) & 1, (flags >> 2) & 1, (flags >> 3) & 1
                 ts = triples if full else [rng.choice(triples) for _ in range(12)]
                 for (r, e, q) in ts:
                     r2, e2, q2 = rng.choice(triples)
+                    r3, e3, q3 = rng.choice(triples)
                     ln = rng.choice(["0", "1", "10", "64", "big"])
                     sock = rng.choice(["none", "none", "ok", "notconn", "bad"])
-                    out.append(["inj %s role=%s hc=%d ab=%d ef=%d vn=%d len=%s sock=%s %d:%s:%d %d:%s:%d"
-                                % (fn, role, hc, ab, ef, vn, ln, sock, r, e, q, r2, e2, q2)])
+                    out.append(["inj %s role=%s hc=%d ab=%d ef=%d vn=%d len=%s sock=%s %d:%s:%d %d:%s:%d %d:%s:%d"
+                                % (fn, role, hc, ab, ef, vn, ln, sock, r, e, q, r2, e2, q2, r3, e3, q3)])
     return out
 
 
@@ -534,7 +535,10 @@ def run_checked(ck, run, env, ca0, cipher_ok, curve_nid):
         "each way in random chunks <= 64 KiB, orderly close or transport cut) under a seeded schedule, with "
         "unrelated rejected library calls (bogus cipher list / curve / key file / CA file / PEM on scratch objects, "
         "leaving OpenSSL's error queue dirty) interleaved at rate noise/256 per step; "
-        "inj case = one wrapper call on a hand-set state with 2 scripted SSL answers; cfg case = two setter "
+        "an endpoint whose handshake was refused keeps calling tls_write/tls_read 4 more times (after=crossed if "
+        "anything is accepted or delivered); "
+        "inj case = one wrapper call (or tls_handshake followed by one I/O call) on a hand-set state with 3 scripted "
+        "SSL answers; cfg case = two setter "
         "sequences + tls_config_equal both ways. distinct_nontrivial = distinct op lines (hs: every session runs "
         "the real handshake; inj: every line reaches the wrapper; cfg: lines with at least one setter)")
     ck.assumptions += [
